@@ -738,6 +738,98 @@ theorem C01_move_conserves (l : Link) (chain : List TCfg) (now : Int) (busy : Bo
   · subst hf
     exact sourceMove_inv l now l' hi hfa
 
+/-! #### The other choices of a `select`
+
+`Link.stageMove` and `Link.ctlMove` resolve a Go `select` with several ready cases in one fixed
+way (timer, then interrupt, then input; `stop`, then input).  Go chooses at random: the
+alternatives below are the other choices. -/
+
+/-- The `select` of stub `i` picks `Input`, whatever else is ready (a due timer, a pending
+interrupt). -/
+def Link.recvAlt (l : Link) (i : Nat) (now : Int) : Option Link :=
+  match l.stages[i]? with
+  | some s => recvPart l i s now
+  | none => none
+
+/-- The `select` of stub `i` picks `Interrupt`, whatever else is ready. -/
+def Link.intrAlt (l : Link) (i : Nat) (now : Int) : Option Link :=
+  match l.stages[i]? with
+  | some s =>
+    if s.intr == .pending && s.pc.interruptible then
+      some { l with stages := modifyAt l.stages i fun s => { (s.fire (.interrupt now)) with intr := .waitRet } }
+    else none
+  | none => none
+
+/-- `RemoveToxic`'s loop picks the removed stub's `Input` although the helper's `stop` is ready
+too. -/
+def Link.ctlTakeAlt (l : Link) (now : Int) : Option Link :=
+  match l.ctl with
+  | some (.rmLoop idx none _ sg) =>
+    (match l.inputOf idx with
+     | some (some c, src) =>
+       some { (l.consume idx src true now) with ctl := some (.rmLoop idx (some c) (now + 5000 * ms) sg) }
+     | _ => none)
+  | _ => none
+
+/-- The move of *some* goroutine of the link — whichever the scheduler picks, and whichever ready
+case a `select` picks: any enabled alternative of `Link.move` (which itself tries them in one
+fixed order), or one of the other choices of a `select`. -/
+def Link.AnyMove (l : Link) (chain : List TCfg) (now : Int) (busy : Bool) (l' : Link) : Prop :=
+  l.crash = none ∧
+  (l.ctlMove chain now = some l' ∨ l.sinkMove now = some l' ∨ (∃ i, l.stageMove i now busy = some l') ∨
+   (∃ i, l.bufferMove i now = some l') ∨ l.sourceMove now = some l' ∨
+   (∃ i, l.recvAlt i now = some l') ∨ (∃ i, l.intrAlt i now = some l') ∨ l.ctlTakeAlt now = some l')
+
+theorem anyMove_of_move (l : Link) (chain : List TCfg) (now : Int) (busy : Bool) (l' : Link)
+    (h : l.move chain now busy = some l') : l.AnyMove chain now busy l' := by
+  unfold Link.move at h
+  split at h
+  · cases h
+  · rename_i hc
+    refine ⟨by simpa using hc, ?_⟩
+    obtain ⟨f, hf, hfa⟩ := firstSome_some _ l' h
+    simp only [List.mem_append, List.mem_cons, List.mem_flatMap, List.mem_reverse, List.mem_range,
+      List.not_mem_nil, or_false] at hf
+    rcases hf with (hf | hf) | hf
+    · rcases hf with rfl | rfl
+      · exact Or.inl hfa
+      · exact Or.inr (Or.inl hfa)
+    · obtain ⟨i, _, hf⟩ := hf
+      rcases hf with rfl | rfl
+      · exact Or.inr (Or.inr (Or.inl ⟨i, hfa⟩))
+      · exact Or.inr (Or.inr (Or.inr (Or.inl ⟨i, hfa⟩)))
+    · subst hf
+      exact Or.inr (Or.inr (Or.inr (Or.inr (Or.inl hfa))))
+
+theorem intrAlt_none (l : Link) (i : Nat) (now : Int) (h : ∀ s, l.stages[i]? = some s → s.intr = .none) :
+    l.intrAlt i now = none := by
+  unfold Link.intrAlt
+  cases hs : l.stages[i]? with
+  | none => rfl
+  | some s =>
+    have : (s.intr == IntrSt.pending) = false := by rw [h s hs]; decide
+    simp [this]
+
+theorem ctlTakeAlt_none (l : Link) (now : Int) (h : l.ctl = none) : l.ctlTakeAlt now = none := by
+  unfold Link.ctlTakeAlt; rw [h]
+
+/-- **C01, every schedule.**  Whichever goroutine of a link in service moves, the link stays in
+service with `delivered ++ in-flight = read`. -/
+theorem C01_anymove_conserves (l : Link) (chain : List TCfg) (now : Int) (busy : Bool) (l' : Link) (hi : LInv l)
+    (h : l.AnyMove chain now busy l') : LInv l' := by
+  rcases h.2 with h' | h' | ⟨i, h'⟩ | ⟨i, h'⟩ | h' | ⟨i, h'⟩ | ⟨i, h'⟩ | h'
+  · rw [ctlMove_none l chain now hi] at h'; cases h'
+  · exact sinkMove_inv l now l' hi h'
+  · exact stageMove_inv l i now busy l' hi h'
+  · exact bufferMove_inv l i now l' hi h'
+  · exact sourceMove_inv l now l' hi h'
+  · unfold Link.recvAlt at h'
+    cases hs : l.stages[i]? with
+    | none => rw [hs] at h'; cases h'
+    | some s => rw [hs] at h'; exact recvPart_inv l i now s hs l' hi h'
+  · rw [intrAlt_none l i now (fun s hs => (hi.stages s (List.mem_of_getElem? hs)).intr)] at h'; cases h'
+  · rw [ctlTakeAlt_none l now hi.noctl] at h'; cases h'
+
 /-- … hence along every run of the link to quiescence. -/
 theorem C01_settle_conserves (chain : List TCfg) (now : Int) :
     ∀ (n : Nat) (l : Link), LInv l →
